@@ -579,3 +579,71 @@ func c10LossAfterBad(x *X) {
 func init() {
 	register(&Scenario{Prop: "C10", Name: "c10/connection-loss-after-unencodable-message", Quick: []Bound{{0, 0}, {1, 0}}, Thorough: []Bound{{2, 0}}, Body: c10LossAfterBad, BudgetQ: 15})
 }
+
+// a full-duplex handler (its own goroutine blocked in ReadMessage, a second goroutine pushing): the
+// connection ends while a push is on its way - the push may fail before, while or after the server
+// tears the connection's streams down, in every order.  The handler's blocked ReadMessage returns
+// (the handler ends), the client's blocked reader returns, later pushes fail.
+func c10Duplex(x *X) {
+	mode := sysModes[x.Choose(len(sysModes))]
+	directIO := x.Choose(2) == 1
+	ev := []int{evConnClose, evPeerEOF, evReset}[x.Choose(3)]
+	npush := x.Choose(3) // pushes released together with the event
+	s := newSys(mode, srvOpts{bufSize: 64, directIO: directIO}, cliOpts{bufSize: 64})
+	st, err := s.conn.NewStream("StreamSvc.Duplex")
+	if err != nil {
+		x.Fail("C10/open-failed", "NewStream: %v", err)
+		return
+	}
+	m := streamMsg(0x31, 0)
+	var r []byte
+	if st.WriteMessage(&m) != nil || st.ReadMessage(nil, &r) != nil || !eqBytes(r, transform(m)) {
+		x.Fail("C10/open-failed", "first echo on the duplex stream failed")
+	}
+	rdDone := false
+	var rdErr error
+	vs.GoNamed("reader", func() {
+		for rdErr == nil {
+			var b []byte
+			rdErr = st.ReadMessage(nil, &b)
+		}
+		rdDone = true
+	})
+	vs.Quiesce()
+	for i := 0; i < npush; i++ {
+		s.w.open(byte(0xD0 + i))
+	}
+	vs.GoNamed("event", func() {
+		switch ev {
+		case evConnClose:
+			s.conn.Close()
+		case evPeerEOF:
+			s.cl.Kill()
+		case evReset:
+			s.cl.Reset()
+		}
+	})
+	vs.Quiesce()
+	for i := npush; i < 3; i++ {
+		s.w.open(byte(0xD0 + i))
+	}
+	vs.Quiesce()
+	label := evNames[ev]
+	if s.w.streamsEx != s.w.streamsIn {
+		x.Fail("C10/handler-blocked/duplex", "after %s (mode %s, direct I/O %v, %d pushes in flight: %v) the full-duplex handler is still blocked in ReadMessage", label, mode.name, directIO, npush, s.w.duplexPush)
+	}
+	if !rdDone {
+		x.Fail("C10/client-reader-blocked/duplex", "after %s the client's reader is still blocked", label)
+	}
+	if n := len(s.w.duplexPush); n != 3 {
+		x.Fail("C10/writer-blocked/duplex", "after %s only %d of 3 pushes of the handler's second goroutine have returned: %v", label, n, s.w.duplexPush)
+	} else if s.w.duplexPush[2] == "" {
+		x.Fail("C10/later-op-outcome/duplex", "a push after %s returned nil: %v", label, s.w.duplexPush)
+	}
+	x.Outcome("%s dio=%v %s npush=%d pushes=%v rd=%s", mode.name, directIO, label, npush, s.w.duplexPush, errStr(rdErr))
+	s.finish()
+}
+
+func init() {
+	register(&Scenario{Prop: "C10", Name: "c10/full-duplex-handler", Quick: []Bound{{0, 0}, {1, 0}}, Thorough: []Bound{{2, 0}}, Body: c10Duplex, MaxSteps: 200000, BudgetQ: 25, BudgetT: 300})
+}
